@@ -73,8 +73,8 @@ def jsonValOf (cls : String) (id : String) : Option Val :=
       | "n" => some (.str (toString n))
       | _ => common
     | none =>
-      -- `js<hex>`: {"v": <text>, "l": [<text>], "n": "<len>"}
-      if cls.startsWith "js" then
+      -- `jt<hex>`: {"v": <text>, "l": [<text>], "n": "<len>"}
+      if cls.startsWith "jt" then
         match strOfHexV (String.ofList (cls.toList.drop 2)) with
         | some t =>
           (match id with
@@ -85,7 +85,7 @@ def jsonValOf (cls : String) (id : String) : Option Val :=
         | none => none
       else none
 
-def isJsonClass (cls : String) : Bool := cls == "json" || (natAfterV "jl" cls).isSome || cls.startsWith "js"
+def isJsonClass (cls : String) : Bool := cls == "json" || (natAfterV "jl" cls).isSome || cls.startsWith "jt"
 
 /-- the values the fixed node-set expressions select on the bodies of the driver (`none`: not tabulated) -/
 def xpathValsOf (cls : String) (id : String) : Option (List String) :=
